@@ -65,10 +65,14 @@ def _decompose(v, val, sw, out, b=None, depth=0, seen=None):
     if b is not None and k == "local" and depth < 3 and (v[1], val) not in seen:
         seen.add((v[1], val))
         ds = b.defs().get(v[1], [])
-        if 2 <= len(ds) <= 4 and all(d[0] == "stmt" and d[3]["k"] == "assign" and not d[3]["pl"]["p"] for d in ds):
+        if 2 <= len(ds) <= 4 and all((d[0] == "stmt" and d[3]["k"] == "assign" and not d[3]["pl"]["p"]) or (d[0] == "call" and not d[3]["dest"]["p"]) for d in ds):
             feasible = []
             for d in ds:
-                dv = b.rvalue_value(d[3]["rv"])
+                if d[0] == "call":
+                    t_ = d[3]
+                    dv = ("call", t_["callee"].get("path", "?"), [b.value(a_) for a_ in t_["args"]], t_["callee"])
+                else:
+                    dv = b.rvalue_value(d[3]["rv"])
                 if dv[0] == "const" and dv[2] in ("true", "false") and (dv[2] == "true") != val:
                     continue
                 feasible.append((d, dv))
